@@ -7,7 +7,7 @@ claim("C10", "other",
   "Decides one clause of C10 for all inputs: each component function returns an error, never an answer, on the wrong kind of graph (every non-error return is reachable only through the continue edge of a kind guard; CFG edge-deletion reachability, recursively through callees). Says nothing about the components' contents.",
   "Partial claim: reachability-class correctness, BFS completeness and partition sizes are run-time properties of graphs and are NOT decided. Trusted: rustc MIR; CFG paths over-approximate executions.",
   "must-pass-through guard analysis on MIR CFG (edge deletion + reachability), inter-procedural through crate callees",
-  "DESIGN.md section 4, C10 (R-C10-1)")
+  "DESIGN.md section 4, C10 (R-C10-1); sections 12-13 (R-C10-2 start nodes come from the node store, R-C10-3 adjacency-map entries are created only for new nodes)")
 claim("C19", "other",
   "Sound enumeration of the crate's own panic-capable operations reachable from read_graphml_string; each is discharged by a dominating existence guard on the same map and key (CFG edge deletion), or by a reviewed invariant that is re-checked structurally (R-C19-1b), or it is a violation when its operand derives from the input document. Plus: no recursion in the reachable call graph, every CFG cycle contains an input-consuming or finite-iterator call and the loop exits to the constructor, and the constructor's directedness depends on the document's edgedefault with the right polarity.",
   "Trusted: quick-xml never panics/loops and consumes input on each read_event_into; std HashMap semantics. Reviewed-safe entries (rules/panic_review.json, keyed by function/callee/shape with a reviewed count) are assumptions with stated reasons. Not decided: that the graph contains exactly the document's elements.",
@@ -62,7 +62,7 @@ claim("C18", "other",
   "Decides one clause of C18 for all inputs: eigenvector_centrality returns Ok only on the true edge of 'sum of |x - xlast| < tolerance-derived bound' inside the max_iter-bounded loop, after normalisation; exhausting the iterator is the only way to the PowerIterationFailedConvergence exit.",
   "Partial claim, stated plainly: unit norm, non-negativity and fixed-point quality are numerical and NOT decided.",
   "control-dependence with edge polarity + natural-loop analysis + dependence slices of the comparison operands",
-  "DESIGN.md section 4, C18 (R-C18-1)")
+  "DESIGN.md section 4, C18 (R-C18-1); section 13.1c (R-C18-2: the iteration never reads the raw by-index adjacency lists, so it multiplies by the matrix of the stored edges)")
 claim("C14", "other",
   "Decides structural necessary conditions of the GraphML round trip: writer/reader vocabulary agreement (element x event kind from MIR constructors vs typed-HIR match arms; attribute names per element; edgedefault literals and polarity; data key = key id), escaping API discipline on both sides, plain f64 Display / parse::<f64> and NaN <=> absent, position-order node output and append-order input, file variant = string variant.",
   "Partial claim: the round-trip equality itself is NOT decided. Trusted: quick-xml escape/unescape are inverses; Rust's f64 Display/FromStr round-trip; this toolchain's byte-template encoding of format strings (a lone {} is b\"\\xc0\\x00\").",
@@ -82,9 +82,9 @@ claim("C12", "other",
   "Decides structural necessary conditions of C12: is_partition's answer depends on a graph-membership lookup of the members, on an element-identity operation ACROSS communities (without which an overlap compensated by a missing node cannot be seen) and on the node count, with every `false` conditional on such a test; modularity answers only behind is_partition(graph, communities) == true and builds NotAPartition on the false edge; its value depends on communities/weighted/resolution, the six degree tables and the induced subgraphs.",
   "Partial claim, stated plainly: that is_partition is exactly the partition predicate and that modularity equals Newman's formula are value-level and NOT decided. (The design had C12 as not applicable because the count-based defect seemed to have no structural signature; the necessary information-flow condition R-C12-1 does expose it, the defect was repaired in 0e1e0d3.)",
   "MUST-DEPEND slices on required operations (membership, cross-set identity, node count) + guard/edge-deletion reachability",
-  "DESIGN.md section 12.5, C12 (R-C12-1..3)")
+  "DESIGN.md section 12.5, C12 (R-C12-1..3); section 13.1b (R-C12-4: no merging/dropping operation on edges between the stored edge list and L_c)")
 claim("C13", "other",
   "Decides three structural clauses of C13 and says plainly that the rest is undecided: the list of levels returned by louvain_partitions is never empty (path-sensitive predicate abstraction: every abstract path into Ok(levels) has pushed a level), communities are non-empty (empty sets are filtered from both partitions compute_one_level returns; the initial partition is made of singletons), louvain_communities returns the popped last level or NoPartitions; within a level communities change only by moving a node's whole member set.",
   "Stated plainly: termination, nesting as a value-level fact and non-decreasing modularity depend on run-time floating-point gains and are NOT decided by any rule here; the claim covers the structural clauses only.",
   "path-sensitive predicate-abstraction dataflow (constant-initialised loop flag) + producer-chain and dependence rules + guard/edge-deletion",
-  "DESIGN.md section 12.6, C13 (R-C13-1..4)")
+  "DESIGN.md section 12.6, C13 (R-C13-1..4); section 13.1c (R-C13-5 name/position domain discipline where names are usize) and section 15 (R-C13-6: directed neighbour weights count both directions -- a structural necessary condition of the termination argument; termination itself is NOT decided)")
